@@ -33,7 +33,7 @@ Typed    == ph = 3 => r.k \in DocKinds(f.k, body.k)
 InBoth   == ph = 3 => (r.k # "None" => Subset(r, f) /\ Subset(r, body))
 \* the two definitions agree (checked on a shard: vertex enumeration is the expensive one)
 AnalyticEqGeneric == (ph = 3 /\ HasAnalytic(f, body) /\ InShard(body, f, SEED, NXCHECK)) =>
-                        Canon(InterAnalytic(f, body)) = Canon(InterGeneric(f, body))
+                        SameSet(InterAnalytic(f, body), InterGeneric(f, body))
 \* maximality on probes: a box point that is in both operands is in the result
 Probes == { LP(p) : p \in BBoxPts(Vertices(body), 0) }
 ProbesAgree == (ph = 3 /\ InShard(body, f, SEED, NXCHECK)) =>
@@ -41,5 +41,5 @@ ProbesAgree == (ph = 3 /\ InShard(body, f, SEED, NXCHECK)) =>
 
 Flags == <<f.k, body.k, r.k,
               IF r.k = "Point" THEN PosClass(r.p, body) ELSE IF r.k = "Segment" THEN PosClass(HMid(r.a, r.b), body) ELSE "-">>
-Emit == ph < 3 \/ PrintT(ToJson([a |-> f, b |-> body, s |-> S, exp |-> r, cls |-> Flags, m |-> Measures(r)]))
+Emit == ph < 3 \/ PrintT(ToJson([a |-> f, b |-> body, s |-> S, exp |-> r, doc |-> DocKinds(f.k, body.k), cls |-> Flags, m |-> Measures(r)]))
 =============================================================================
